@@ -93,7 +93,20 @@ def translate(ctx: Ctx):
         return None
     for n, t in files.items():
         ctx.write_gen(n, t)
-    ctx.cov["translators"] = {"tr_isolation": {
+    # the dispatcher / router / timer plumbing must still be the reviewed text the router model (Model/Router.v) describes
+    import tr_router
+    try:
+        rfiles, rmeta = tr_router.gen(str(REPO))
+        for n, t in rfiles.items():
+            ctx.write_gen(n, t)
+        ctx.obligations += 1
+        ctx.discharged += 1
+        guard = {"kind": "shape guard", "functions": rmeta["functions"], "rejected": None}
+    except Exception as e:      # noqa
+        ctx.broken.append("shape guard tools/tr_router.py: %s" % str(e)[:500])
+        ctx.obligations += 1
+        guard = {"kind": "shape guard", "rejected": str(e)[:500]}
+    ctx.cov["translators"] = {"tr_router": guard, "tr_isolation": {
         "files_read": len(meta["files"]), "import_statements": meta["imports"],
         "distinct_non_simaple_imports": meta["distinct_imported"], "uses": ["%s: %s" % tuple(u) for u in meta["uses"]],
         "state_entries": len(meta["state"]),
@@ -441,6 +454,16 @@ def router_correspondence(ctx: Ctx, jobs, model_ok):
             continue
         cases += r["cases"]
         errors += r["errors"]
+    # a configuration on which CPython gave up with RecursionError WHILE rejections were being recorded is not comparable: the depth at
+    # which the interpreter stops is an artefact (frames per re-entrance), not the model's fuel, and the rejections recorded up to that
+    # point (which drive the model's TandemDispatcher) end where CPython stopped, so the model would leave the recorded path.  (Cycles that end by a rejection, by a raising primitive or by a cached route are still compared.)
+    def not_comparable(c):
+        dops = [o for o in c.get("ops", []) if o[0] == "D"]
+        return any(e.get("raised") == "RecursionError" and len(o) > 2 and o[2] for o, e in zip(dops, c.get("expected", [])))
+    skipped = [c for c in cases if not_comparable(c)]
+    if skipped:
+        cases = [c for c in cases if c not in skipped]
+        ctx.cov.setdefault("router_cases_not_comparable", {"reason": "CPython RecursionError (unbounded re-entrance)", "count": 0})["count"] += len(skipped)
     diffs = []
     if model_ok and cases:
         shards, index = {}, {}
